@@ -631,6 +631,7 @@ func (w *world) orderOK(p *putOp, before treeSnap) bool {
 type caseStats struct {
 	counts     []string
 	nontrivial bool
+	unsettled  []int // indices of `tick` ops whose delayed jobs did not finish in time
 }
 
 func (c *caseStats) Count(k string) { c.counts = append(c.counts, k) }
@@ -764,14 +765,23 @@ func (x *caseRun) execOp(i int) string {
 			x.nontrivial = true
 		}
 		return fmtAnswer(o, st, ph, mid)
-	case ws[0] == "tick" && len(ws) == 1:
+	case ws[0] == "tick" && (len(ws) == 1 || (len(ws) == 2 && ws[1] == "unsettled")):
 		if !x.live {
 			return "skip"
 		}
-		// the un-manage delay (staleVersionTTL = 30 s) elapses on the engine's clock
+		// the un-manage delay (staleVersionTTL = 30 s) elapses on the engine's clock; wait until every delayed
+		// un-manage job it woke has finished
 		w.clock.AdvanceTime(31 * time.Second)
-		w.ha.quiesce()
+		settled := settle(20 * time.Second)
 		x.haFuzzy = false
+		if !settled || len(ws) == 2 {
+			// not settled (or recorded as such in a replayed case): the managed set is not judged from here on;
+			// the parent rewrites the op to `tick unsettled` so that the model knows
+			x.haFault = true
+			if len(ws) == 1 && !x.replaying {
+				x.o.unsettled = append(x.o.unsettled, i)
+			}
+		}
 		return "ok"
 	case ws[0] == "managed" && len(ws) == 1:
 		if !x.live {
